@@ -5,3 +5,4 @@ pub mod jser;
 pub mod known;
 pub mod model;
 pub mod props;
+pub mod treefn;
